@@ -8,6 +8,9 @@ Values: int (bool as 0/1), str, Table (constant associative container / list), o
 from .facts import skip_copies, const_str, const_int, is_call, strip_tmpl, name_is, walk
 
 
+_UNK = object()
+
+
 class Unknown(Exception):
     pass
 
@@ -566,7 +569,12 @@ class Conc:
         if f is not None and f.body is not None and not n.get("virtual"):
             if depth >= self.max_depth:
                 raise Unknown("call depth")
-            vals = [self.eval(a, env, depth) for a in args]
+            vals = []
+            for a in args:
+                try:
+                    vals.append(self.eval(a, env, depth))
+                except Unknown:
+                    vals.append(_UNK)       # unknown until the callee uses it
             this_fields = None
             if n.get("ck") == "member" and isinstance(obj, dict):
                 ob = skip_copies(obj)
@@ -583,6 +591,9 @@ class Conc:
         if len(vals) > len(ps):
             raise Unknown("argument count of %s" % f.name)
         for p, v in zip(ps, vals):
+            if v is _UNK:
+                env["__unk__:%s" % p["decl"]] = True
+                continue
             env[p["decl"]] = _conv(v, p.get("type"))
         if len(vals) < len(ps):
             raise Unknown("missing arguments of %s" % f.name)
